@@ -11,6 +11,7 @@ import (
 	"fmt"
 	"os"
 	"runtime"
+	"time"
 
 	"google.golang.org/protobuf/proto"
 	"google.golang.org/protobuf/reflect/protoreflect"
@@ -152,15 +153,31 @@ func ConcreteString(s string) string { return s }
 // Recovered runs f and reports whether a panic (or, under the executor, a
 // process exit or an exceeded unwinding bound) escaped from it.
 func Recovered(f func()) (panicked bool, msg string) {
-	defer func() {
-		if r := recover(); r != nil {
-			panicked = true
-			msg = "PANIC: " + fmt.Sprint(r)
-		}
+	type result struct {
+		panicked bool
+		msg      string
+	}
+	done := make(chan result, 1)
+	go func() {
+		defer func() {
+			if r := recover(); r != nil {
+				done <- result{true, "PANIC: " + fmt.Sprint(r)}
+			}
+		}()
+		f()
+		done <- result{false, ""}
 	}()
-	f()
-	return false, ""
+	// a call that never returns (a leaked lock, goroutines waiting for each other) counts
+	// like a crash; the executor reports the same situation as DEADLOCK
+	select {
+	case r := <-done:
+		return r.panicked, r.msg
+	case <-time.After(recoveredDeadline):
+		return true, "DEADLOCK: did not return within " + recoveredDeadline.String()
+	}
 }
+
+const recoveredDeadline = 40 * time.Second
 
 // AnyMapOrder runs f with every map range inside it iterating in an arbitrary order.
 // Natively Go's own randomisation applies.
@@ -179,12 +196,12 @@ func TaskModel() {}
 // PreemptionBound limits how often the executor switches away from a task that could continue.
 func PreemptionBound(n int) {}
 
-func Yield(point string) { runtime.Gosched() }
-func Note(s string)            {}
-func Setenv(k, v string)       { os.Setenv(k, v) }
-func Replaying() bool          { return true }
-func BudgetSteps(n int64)      {}
-func BudgetDepth(n int)        {}
+func Yield(point string)  { runtime.Gosched() }
+func Note(s string)       {}
+func Setenv(k, v string)  { os.Setenv(k, v) }
+func Replaying() bool     { return true }
+func BudgetSteps(n int64) {}
+func BudgetDepth(n int)   {}
 
 // ProtoEqualNoCtx reports whether two protobuf messages are equal once every
 // source_context / source_contexts field (recorded source locations) is dropped.
